@@ -44,6 +44,8 @@ type mSub struct { // client -> peer submission received by the server
 	Payload []byte
 	TRecv   int64
 	Done    bool
+	Judged  bool // must-deliver verdict already issued at an idle point
+	Lost    bool // ... and it was "not relayed"
 	Whole   bool
 	MsgLen  int
 }
@@ -55,6 +57,7 @@ type mInb struct { // peer datagram received at a relay socket
 	NRead    int
 	TRecv    int64
 	Done     bool
+	Judged   bool
 }
 
 type nonceInfo struct{ First, Last int64 }
@@ -96,6 +99,7 @@ type Monitor struct {
 	Idles            int
 	tcpCtl           map[*TCPConn]*ctlStream
 	relayErr         map[string]int64 // relay key -> time of injected failure
+	ctlEnded         map[string]int64 // client -> time its TCP control connection ended (server view)
 	InboundMTU       int
 }
 
@@ -115,7 +119,7 @@ func NewMonitor(k *Kernel, n *Net, p *Plan) *Monitor {
 	m := &Monitor{K: k, Net: n, P: p, M: NewModel(perm, ch, life), users: map[string]string{}, denyPeer: map[string]bool{},
 		denyClient: map[string]bool{}, nonces: map[string]*nonceInfo{}, intents: map[string]*Intent{}, reqs: map[string][]*mReq{},
 		evCount: map[string]int{}, states: map[string]struct{}{}, srvWriteFailed: map[string]bool{}, MustMax: 1400,
-		tcpCtl: map[*TCPConn]*ctlStream{}, relayErr: map[string]int64{}}
+		tcpCtl: map[*TCPConn]*ctlStream{}, relayErr: map[string]int64{}, ctlEnded: map[string]int64{}}
 	m.InboundMTU = p.Cfg.InboundMTU
 	if m.InboundMTU == 0 {
 		m.InboundMTU = 1600
@@ -321,7 +325,7 @@ func (m *Monitor) srvSend(to string, b []byte, now int64) {
 		num := uint16(b[0])<<8 | uint16(b[1])
 		l := int(b[2])<<8 | int(b[3])
 		if num < 0x4000 || num > 0x7FFF {
-			m.v([]string{"C08"}, "out-of-range-emitted", kv("n", fmt.Sprintf("0x%04x", num)), "server emitted non-STUN message with leading number 0x%04x to %s", num, to)
+			m.v([]string{"C08"}, "out-of-range-emitted", kv("n", rangeClass(num)), "server emitted non-STUN message with leading number 0x%04x to %s", num, to)
 		}
 		if l <= len(b)-4 {
 			m.forward(to, true, num, "", b[4:4+l], now)
@@ -371,9 +375,12 @@ func (m *Monitor) onResponse(to string, msg *stun.Message, raw []byte, now int64
 		if code == 401 || code == 438 {
 			var nc stun.Nonce
 			var rl stun.Realm
-			if nc.GetFrom(msg) != nil || rl.GetFrom(msg) != nil {
+			hasN, hasR := nc.GetFrom(msg) == nil, rl.GetFrom(msg) == nil
+			needs := r.Auth < 0 && (r.AuthWhy == "no-integrity" || r.AuthWhy == "stale-nonce")
+			if needs && (!hasN || !hasR) {
 				m.v([]string{"C03"}, "challenge-unusable", kv("code", itoa(code)), "%d challenge without NONCE/REALM", code)
-			} else {
+			}
+			if hasN && hasR {
 				if rl.String() != m.P.Cfg.Realm {
 					m.v([]string{"C03"}, "challenge-unusable", kv("code", itoa(code)), "challenge realm %q != configured %q", rl.String(), m.P.Cfg.Realm)
 				}
@@ -394,7 +401,7 @@ func (m *Monitor) onResponse(to string, msg *stun.Message, raw []byte, now int64
 				"%s from %s succeeded although credentials are defective: %s", methodName(r.Method), to, r.AuthWhy)
 		}
 	}
-	if !ok && r.Auth > 0 && (code == 401 || code == 438) {
+	if !ok && r.Auth > 0 && (code == 401 || code == 438) && msg.Contains(stun.AttrNonce) {
 		m.v([]string{"C03"}, "authentic-rejected", kv("method", methodName(r.Method), "code", itoa(code)),
 			"%s from %s with valid credentials was challenged with %d", methodName(r.Method), to, code)
 	}
@@ -403,7 +410,7 @@ func (m *Monitor) onResponse(to string, msg *stun.Message, raw []byte, now int64
 		if r.AuthWhy == "stale-nonce" {
 			want = 438
 		}
-		if ok || code != want {
+		if ok || (code != want && code != 420) {
 			m.v([]string{"C03"}, "no-challenge", kv("method", methodName(r.Method), "why", r.AuthWhy),
 				"%s (%s) answered with class=%s code=%d, want %d challenge", methodName(r.Method), r.AuthWhy, className(msg.Type.Class), code, want)
 		}
@@ -648,7 +655,8 @@ func (m *Monitor) respChannelBind(r *mReq, msg *stun.Message, ok bool, code int,
 				"ChannelBind 0x%04x -> %s by the owner without any conflict answered %d", n, ustr(peer), code)
 		}
 		if def != nil && okN && okP && r.Auth > 0 && r.User == def.User {
-			if why, c := m.M.ChanConflictDefinitely(def, n, ustr(peer), I.Lo, I.Hi); c && code != 400 {
+			if why, c := m.M.ChanConflictDefinitely(def, n, ustr(peer), I.Lo, I.Hi); c && code != 400 && n >= 0x4000 && n <= 0x7FFF &&
+				!m.vetoed(r.Client, peer.IP) && ipFamily(peer.IP) == def.Family {
 				m.v([]string{"C08"}, "conflict-wrong-code", kv("kind", why, "code", itoa(code)), "conflicting ChannelBind answered %d, want 400", code)
 			}
 		}
@@ -718,10 +726,14 @@ func (m *Monitor) relayWrite(relayKey, to string, payload []byte, now int64) {
 	m.K.Logf("relayout %s>%s len=%d", m.Net.names[relayKey], to, len(payload))
 	dst := mustUDPAddr(to)
 	// candidates: submissions not yet matched
+	// newest first, and submissions not yet judged before those already judged at an idle point
 	var cands []*mSub
-	for _, s := range m.subs {
-		if !s.Done && bytes.Equal(s.Payload, payload) {
-			cands = append(cands, s)
+	for pass := 0; pass < 2; pass++ {
+		for i := len(m.subs) - 1; i >= 0; i-- {
+			s := m.subs[i]
+			if !s.Done && s.Judged == (pass == 1) && bytes.Equal(s.Payload, payload) {
+				cands = append(cands, s)
+			}
 		}
 	}
 	owners := m.allocsByRelay(relayKey, 0, now)
@@ -734,6 +746,7 @@ func (m *Monitor) relayWrite(relayKey, to string, payload []byte, now int64) {
 			if s.IsChan {
 				if m.M.ChanPossibly(a, s.Chan, to, s.TRecv, now) {
 					s.Done = true
+					m.lateEmission(s, now)
 					if m.vetoed(a.Client, dst.IP) {
 						m.v([]string{"C01"}, "unauthorised-emission", kv("kind", "chandata", "reason", "vetoed"), "ChannelData relayed to vetoed peer %s", to)
 					}
@@ -743,6 +756,7 @@ func (m *Monitor) relayWrite(relayKey, to string, payload []byte, now int64) {
 			} else if s.Peer == to {
 				if m.M.PermPossibly(a, dst.IP.String(), s.TRecv, now) {
 					s.Done = true
+					m.lateEmission(s, now)
 					return
 				}
 				why = "no-perm"
@@ -821,6 +835,19 @@ func (m *Monitor) relayWrite(relayKey, to string, payload []byte, now int64) {
 	m.v([]string{"C01", "C05"}, "unattributable-emission", nil, "relay %s emitted %d bytes to %s that no client submitted", relayKey, len(payload), to)
 }
 
+// lateEmission: a submission that was still unrelayed when the system had gone idle is
+// relayed after all - over a stream listener that is a frame the packetiser withheld.
+func (m *Monitor) lateEmission(s *mSub, now int64) {
+	if !s.Judged {
+		return
+	}
+	m.K.Stats.Probe("emission_after_idle")
+	if m.P.Cfg.Listener == "tcp" && m.K.Parked() == 0 && len(m.K.StallIntervals()) == 0 {
+		m.v([]string{"C10"}, "frame-withheld", kv("kind", "via-server", "len", lenClass(s.MsgLen)),
+			"client message of %d bytes was handled only %d ns after its last byte arrived, when later bytes came in", s.MsgLen, now-s.TRecv)
+	}
+}
+
 func lenClass(n int) string {
 	switch {
 	case n == 0:
@@ -841,9 +868,12 @@ func (m *Monitor) forward(to string, isChan bool, num uint16, peer string, paylo
 	m.K.Logf("fwd %s chan=%v len=%d", m.Net.names[to], isChan, len(payload))
 	allocs := m.M.Current(to, 0, now)
 	var cands []*mInb
-	for _, i := range m.inbs {
-		if !i.Done && bytes.Equal(i.Payload, payload) {
-			cands = append(cands, i)
+	for pass := 0; pass < 2; pass++ {
+		for k := len(m.inbs) - 1; k >= 0; k-- {
+			i := m.inbs[k]
+			if !i.Done && i.Judged == (pass == 1) && bytes.Equal(i.Payload, payload) {
+				cands = append(cands, i)
+			}
 		}
 	}
 	reason := "no-arrival"
@@ -965,6 +995,10 @@ func (m *Monitor) onAllocDeleted(client string, now int64) {
 		m.M.EndAlloc(a, ivl{now, now}, "server-close")
 		return
 	}
+	if t, ok := m.ctlEnded[client]; ok && now >= t {
+		m.M.EndAlloc(a, ivl{t, now}, "control-connection")
+		return
+	}
 	if t, ok := m.relayErr[a.RelayKey]; ok && now >= t {
 		m.M.EndAlloc(a, ivl{t, now}, "relay-failure")
 		return
@@ -1012,9 +1046,9 @@ func (m *Monitor) Idle(now int64, allocCount int, lossFree bool) {
 	// client -> peer submissions that produced no emission
 	keep := m.subs[:0]
 	for _, s := range m.subs {
-		if s.Done {
-			if now-s.TRecv < 120e9 {
-				keep = append(keep, s) // remembered for duplicate detection
+		if s.Done || s.Judged {
+			if now-s.TRecv < 120e9 || (!s.Done && now-s.TRecv < 7200e9) {
+				keep = append(keep, s) // remembered for duplicate / late-emission detection
 			}
 			continue
 		}
@@ -1022,7 +1056,7 @@ func (m *Monitor) Idle(now int64, allocCount int, lossFree bool) {
 			keep = append(keep, s)
 			continue
 		}
-		s.Done = true
+		s.Judged = true
 		keep = append(keep, s)
 		if m.NoMust || !lossFree || s.MsgLen >= m.InboundMTU {
 			continue
@@ -1037,11 +1071,13 @@ func (m *Monitor) Idle(now int64, allocCount int, lossFree bool) {
 			if s.IsChan {
 				for _, addr := range m.M.ChanAddrsPossibly(a, s.Chan, s.TRecv, now) {
 					if m.M.ChanDefinitely(a, s.Chan, addr, s.TRecv, now) {
+						s.Lost = true
 						m.v([]string{"C07", "C05"}, "refuses-before-deadline", kv("obj", "channel", "dir", "c2p"),
 							"ChannelData 0x%04x (%d bytes) from %s was not relayed although the binding is alive (deadline in %d ns)", s.Chan, len(s.Payload), s.Client, m.chanLeft(a, s.Chan, now))
 					}
 				}
 			} else if m.M.PermDefinitely(a, mustUDPAddr(s.Peer).IP.String(), s.TRecv, now) {
+				s.Lost = true
 				m.v([]string{"C07", "C05"}, "refuses-before-deadline", kv("obj", "permission", "dir", "c2p"),
 					"Send indication (%d bytes) from %s to %s was not relayed although the permission is alive", len(s.Payload), s.Client, s.Peer)
 			}
@@ -1050,7 +1086,7 @@ func (m *Monitor) Idle(now int64, allocCount int, lossFree bool) {
 	m.subs = keep
 	keepI := m.inbs[:0]
 	for _, i := range m.inbs {
-		if i.Done {
+		if i.Done || i.Judged {
 			if now-i.TRecv < 120e9 {
 				keepI = append(keepI, i)
 			}
@@ -1060,7 +1096,7 @@ func (m *Monitor) Idle(now int64, allocCount int, lossFree bool) {
 			keepI = append(keepI, i)
 			continue
 		}
-		i.Done = true
+		i.Judged = true
 		keepI = append(keepI, i)
 		if m.NoMust || !lossFree || len(i.Payload) > m.MustMax {
 			continue
